@@ -406,8 +406,8 @@ func isoWorkload(count map[string]int) *Workload {
 }
 
 var streamComponents = map[string][]string{
-	"real":      {"jqawk lexer, parser, evaluator, prototypes, runtime (lang.EvalProgram)", "encoding/json Decoder", "Go runtime"},
-	"simulated": {"io.Reader of every input file (SimReader: chunking, zero reads, EOF placement, I/O error, truncation, corruption, stray text)", "stdout io.Writer (SimWriter with global event numbers)"},
+	"real":      {"jqawk lexer, parser, evaluator, prototypes, runtime (lang.EvalProgram)", "encoding/json Decoder", "Go runtime", "the jqawk binary (cli/cli.go, main.go) in the cli-* workloads", "kernel pipes, named pipes and regular files in the cli-* workloads"},
+	"simulated": {"io.Reader of every input file (SimReader: chunking, zero reads, EOF placement, I/O error, truncation, corruption, stray text)", "stdout io.Writer (SimWriter with global event numbers; failing sink in C01)", "the writer end of the binary's input pipe (cli-pipe-schedule: chunk boundaries from the seed, next chunk only at observed quiescence)"},
 	"stubbed":   {},
 }
 
@@ -415,7 +415,7 @@ func registerStream() {
 	register(&Property{
 		ID:    "C02",
 		Level: "exploration",
-		Rule:  "seeded configurations (files x values x selectors x mixes of BEGIN/END/BEGINFILE/ENDFILE/pattern rules x root shapes x next/exit placements x pattern truth) run through lang.EvalProgram under benign read schedules; stdout compared byte for byte with an executable reference model of the awk schedule. Distinct = distinct event-log shape (sequence of read classes relative to value boundaries and writes); non-trivial = at least one write and two events.",
+		Rule:  "seeded configurations (files x values x selectors x mixes of BEGIN/END/BEGINFILE/ENDFILE/pattern rules x root shapes x next/exit placements x pattern truth) run through lang.EvalProgram under benign read schedules; stdout compared byte for byte with an executable reference model of the awk schedule; (cli-schedule) the same through the real binary with one to three named inputs, each a regular file or a named pipe, or standard input behind a file / a file at an offset / a pipe. Distinct = distinct event-log shape (sequence of read classes relative to value boundaries and writes); non-trivial = at least one write and two events.",
 		Assumptions: []string{
 			"the reference schedule model (tracemodel.go) is written from the property statement and README",
 			"trace programs only observe what the statement fixes: $ in ENDFILE, $index under non-array roots, next outside pattern rules and failing selectors are not generated",
@@ -427,13 +427,14 @@ func registerStream() {
 			streamWorkload("schedule", map[string]int{"quick": 400000, "thorough": 8000000}, streamGenOpts{mode: "c02", maxFiles: 3, maxVals: 6, selectors: true, benign: true, sigProb: 35}),
 			longInputWorkload(map[string]int{"quick": 16, "thorough": 400}),
 			isoWorkload(map[string]int{"quick": 20000, "thorough": 400000}),
+			cliSchedWorkload(map[string]int{"quick": 1500, "thorough": 100000}),
 		},
 	})
 	allFaults := []string{"TRUNC", "EIO", "CORRUPT", "STRAY"}
 	register(&Property{
 		ID:    "C03",
 		Level: "fault_enumeration",
-		Rule:  "seeded JSON value streams, trace programs and read schedules; every truncation point and every I/O-error offset enumerated for each short stream (fault-sweep), sampled corruption/stray text/truncation/EIO on longer multi-file streams (faults), adversarial chunkings without faults (chunking). Monitor M1 (incremental output) evaluated inside every Read; outcome, error file name and stdout compared with jsonref + schedule model. Distinct = distinct event-log shape (read classes relative to value boundaries, zero reads, EOF/error events, writes); non-trivial = at least one write and two events.",
+		Rule:  "seeded JSON value streams, trace programs and read schedules; every truncation point and every I/O-error offset enumerated for each short stream (fault-sweep), sampled corruption/stray text/truncation/EIO on longer multi-file streams (faults), adversarial chunkings without faults (chunking); the real binary on files, named pipes and standard input (cli-streams), under strace for the order of its read and write calls (cli-incremental), and fed through a pipe chunk by chunk by the case's schedule with quiescence observed in /proc before each further chunk (cli-pipe-schedule). Monitor M1 (incremental output) evaluated inside every Read; outcome, error file name and stdout compared with jsonref + schedule model. Distinct = distinct event-log shape (read classes relative to value boundaries, zero reads, EOF/error events, writes); non-trivial = at least one write and two events.",
 		Assumptions: []string{
 			"jsonref decides which values are complete in a byte stream (RFC 8259 token grammar, greedy)",
 			"an I/O error immediately after the last byte of a value (no following byte delivered) may or may not process that value; the error itself stays mandatory",
